@@ -162,8 +162,18 @@ def run_randsets(spec, rec):
         a, b = rng.sample(['FIELD', 'COMPONENT', 'SUBCOMPONENT', 'REPETITION', 'ESCAPE'], 2)
         rel[a], rel[b] = rel[b], rel[a]
         rel2 = dict(ec, FIELD=rng.choice([c for c in '!$%*+;<=>?@' if c not in ec.values()]))
-        for e2 in (rel, rel2):
+        rels = [rel, rel2]
+        if er7ref.vkey(v) >= (2, 7):
+            # the same five characters with, without and with another truncation character
+            free = [c for c in '!$%*+;<=>?@#' if c not in ec.values()]
+            t1, t2 = rng.sample(free, 2)
+            base5 = dict((k, c) for k, c in ec.items() if k != 'TRUNCATION')
+            rels += [dict(base5, TRUNCATION=t1), dict(base5), dict(base5, TRUNCATION=t2), dict(base5, TRUNCATION=t1)]
+            rec.count('truncation_related_sets', 4)
+        for e2 in rels:
             al2 = alphabet(e2)
+            if er7ref.vkey(v) >= (2, 7):
+                al2 = al2 + [t1, t2]
             for _ in range(40):
                 x = ''.join(rng.choice(al2) for _ in range(rng.randint(2, 7)))
                 judge(classes[name], name, v, x, e2, letters, rec)
@@ -246,6 +256,25 @@ def run_assign(spec, rec):
         except Exception as e:
             rec.violation('assign-raised:%s' % type(e).__name__, case, {'exc': repr(e)[:200]})
             continue
+        # the same assignment inside a segment that has no message: it encodes with the characters it is given
+        try:
+            seg = core.Segment('PID', version=v)
+            seg.pid_1 = '1'
+            seg.pid_5 = 'AB'
+            sbefore = seg.to_er7(dict(ec))
+            node = seg.pid_5[0]
+            while node.children.list:
+                node = node.children.list[0]
+            node.value = dt
+            safter = seg.to_er7(dict(ec))
+        except Exception as e:
+            rec.violation('assign-raised:%s' % type(e).__name__, dict(case, where='parentless segment'),
+                          {'exc': repr(e)[:200]})
+            continue
+        rec.count('assign_shape_comparisons_parentless_segment')
+        if er7ref.shape(er7ref.tokenize_segment(sbefore, ec)[1]) != er7ref.shape(er7ref.tokenize_segment(safter, ec)[1]):
+            rec.violation('datatype-object-changed-counts', dict(case, where='parentless segment'),
+                          {'before': sbefore, 'after': safter})
         tb = er7ref.tokenize_message(before, ec)[1]
         ta = er7ref.tokenize_message(after, ec)[1]
         sb = [(n, er7ref.shape(f)) for n, f in tb]
